@@ -348,6 +348,17 @@ func (m *vfMachine) setup(t *rapid.T) {
 				m.ok[h] = true
 			}
 		}
+		// a newest-head job samples the announced head alone, also while the catch-up cursor is still
+		// below it: its failures are recorded for heights at or above SampleFrom, which a catch-up job
+		// will cover again (and which a retry job may be sampling at the same time)
+		for h := cp.SampleFrom; h <= cp.NetworkHead; h++ {
+			if rapid.IntRange(0, 5).Draw(t, fmt.Sprintf("seedAhead%d", h)) == 0 {
+				cp.Failed[h] = rapid.IntRange(1, 6).Draw(t, "seedFailedCount")
+				m.errEver[h] = true
+				m.lastCount[h] = cp.Failed[h]
+				m.labels["start=midchain-failed-ahead-of-cursor"] = true
+			}
+		}
 		m.putTag = "seed"
 		cs := newCheckpointStore(m.ds)
 		if err := cs.store(context.Background(), cp); err != nil {
@@ -762,7 +773,7 @@ func (m *vfMachine) checkC13(t *rapid.T, o *vfObs, t1 time.Time) {
 					// the count started again from 1
 					vk.Excluded(vfSigRetryCountReset)
 				} else {
-					m.fail(t, "C13/B4 retry attempt count of height %d decreased from %d to %d without a successful sample in between: %s", h, c, count[h], o)
+					m.fail(t, "C13/B4 retry attempt count of height %d decreased from %d to %d although the height never stopped being failed: %s", h, c, count[h], o)
 				}
 			}
 			if count[h] > m.boMax {
@@ -794,6 +805,14 @@ func (m *vfMachine) checkC13(t *rapid.T, o *vfObs, t1 time.Time) {
 	}
 	for h, e := range o.failed {
 		m.sawEntry[h] = e
+	}
+	// the count of a height starts again only after the height has left both sets (it was sampled);
+	// a successful sample by one job while another job's failure keeps the height failed does not
+	// restart it
+	for h := range m.lastCount {
+		if _, still := count[h]; !still {
+			delete(m.lastCount, h)
+		}
 	}
 	for h, c := range count {
 		m.lastCount[h] = c
@@ -935,10 +954,8 @@ func (m *vfMachine) release(t *rapid.T, c *vfCall, outcome string) {
 	switch {
 	case err == nil:
 		m.ok[c.height] = true
-		delete(m.lastCount, c.height)
 	case errors.Is(err, availability.ErrOutsideSamplingWindow):
 		m.skipped[c.height] = true
-		delete(m.lastCount, c.height)
 		m.labels["outside-window"] = true
 	default:
 		m.errEver[c.height] = true
